@@ -9,7 +9,12 @@ clauses handed over as lambdas / functions / callable instances / bound methods 
 clause registered twice (under two names) is the same callable twice (ops "clauses" and "session" see the same registrations);
 functionals on price tensors of shape (T,), (B, N, T), ... (contiguous, permuted, strided) vs op "payoff" / "var_swap" path by path;
 derivatives with SEVERAL registered underliers and underliers re-assigned after construction (construction histories of the derivative
-objects of every section, re-assignments inside the sessions = a new price buffer for the model, user contracts on two and more assets).
+objects of every section, re-assignments inside the sessions = a new price buffer for the model, user contracts on two and more assets);
+the construction histories, the sessions (with their `swap` / `extra` operations as registrations) and the user contracts (spread by position /
+by name, basket) ALSO run through the model of a derivative with several registered underliers (Model/MultiSession.lean, driver op
+"multi_session": registry name -> instrument, one price buffer per instrument): named_underliers() (names in order, object identity),
+ul(i) for every position, get_underlier(name) and every payoff() answer / raised error compared exactly; scripts of registrations, buffer
+swaps, cell edits through variable / name / position, never-simulated instruments, one-path assets, refused names (fixed corpus + random).
 property predicate: the contract formulas in exact Fractions (independent of the model).
 """
 import math
@@ -267,6 +272,185 @@ def reg_show(reg):
     return [n for n, _ in reg]
 
 
+# ---------------------------------------------------------------------------------------------------------------------------
+# the same scenarios for the Lean model of a derivative with SEVERAL registered underliers (Model/MultiSession.lean, driver op
+# "multi_session"): the instrument objects are numbered, the model keeps the registry (name -> number, insertion-ordered) and the
+# price buffer of every instrument; compared are the registry listings (names in order, object identity through the numbers), ul(i),
+# get_underlier(name) and EVERY payoff() answer / raised error, exactly.
+
+MS_ATTR_CANDIDATES = ["strike", "payoff", "maturity", "a", "b", "c", "z", "knock", "call", "start", "underlier", "cost", "pricer", "fx",
+                      "collateral", "first", "second", "weights", "by", "ul", "a.b", ""] + [f"asset{i}" for i in range(12)]
+
+
+class MultiRec:
+    """one scenario on ONE derivative object, recorded for the model: `ops` = model operations in the order they were carried out on
+    the real object, `outs` = what the real object showed for each of them"""
+
+    def __init__(self, contract, flt=False, first=None, second=None):
+        self.contract, self.flt, self.first, self.second = contract, flt, first, second
+        self.enc = (lambda q: float_bits(float(F(q)))) if flt else (lambda q: rat_str(F(q)))
+        self.objs, self.world, self.ops, self.outs = [], [], [], []
+        self.terms = None
+
+    def set_terms(self, strike, call=True, start=0, dt=F(1, 4), weights=(), attrs=()):
+        self.terms = {"strike": self.enc(strike), "call": bool(call), "start": int(start), "dt": self.enc(dt),
+                      "weights": [self.enc(w) for w in weights], "attrs": list(attrs)}
+
+    def encd(self, desc):
+        return [desc[0]] + [self.enc(x) for x in desc[1:]]
+
+    def rows(self, paths):
+        return [[self.enc(v) for v in p] for p in paths]
+
+    def known(self, inst):
+        for k, o in enumerate(self.objs):
+            if o is inst:
+                return k
+        return None
+
+    def add(self, inst, paths):
+        """an instrument object that exists from the start, with its prices (None: never simulated)"""
+        self.objs.append(inst)
+        self.world.append([len(self.objs) - 1, None if paths is None else self.rows(paths)])
+        return len(self.objs) - 1
+
+    def new(self, inst, paths):
+        """an instrument object created during the session: its prices are handed to the model when it appears"""
+        self.objs.append(inst)
+        k = len(self.objs) - 1
+        self.world.append([k, None])
+        if paths is not None:
+            self.op(["swap_buffer", ["id", k], self.rows(paths)], None)
+        return k
+
+    def op(self, mop, out):
+        self.ops.append(mop)
+        self.outs.append(out)
+
+    def ident(self, inst):
+        k = self.known(inst)
+        return ("inst", k) if k is not None else ("unknown-object", repr(inst))
+
+    def views(self, d):
+        """named_underliers(), ul(i) for every position (and one beyond, from both ends), get_underlier(name) for every name"""
+        try:
+            named = list(d.named_underliers())
+            self.op(["names"], ("names", [[n, self.known(o)] for n, o in named]))
+        except Exception as e:  # noqa
+            self.op(["names"], ("err", canon_error(e)))
+            return
+        n = len(named)
+        for i in list(range(-n - 1, n + 1)):
+            try:
+                self.op(["ul", i], self.ident(d.ul(i)))
+            except Exception as e:  # noqa
+                self.op(["ul", i], ("err", canon_error(e)))
+        for name in [x for x, _ in named] + ["nosuch"]:
+            try:
+                self.op(["get", name], self.ident(d.get_underlier(name)))
+            except Exception as e:  # noqa
+                self.op(["get", name], ("err", canon_error(e)))
+
+    def query(self, st, v):
+        if st != "ok":
+            self.op(["query"], ("err", v))
+        elif self.flt:
+            self.op(["query"], ("ok", [float(z) for z in v.reshape(-1).tolist()]))
+        else:
+            self.op(["query"], ("ok", tensor_to_fracs(v.reshape(-1))))
+
+    def static_attrs(self, d, extra=()):
+        """the names `hasattr` finds on the object that are no registered underliers (class attributes, instance attributes)"""
+        regd = [n for n, _ in d.named_underliers()]
+        return [n for n in dict.fromkeys(list(MS_ATTR_CANDIDATES) + list(extra)) if n not in regd and n != "" and hasattr(d, n)]
+
+    def request(self):
+        req = {"op": "multi_session", "carrier": "float" if self.flt else "rat", "contract": self.contract, "reg": [],
+               "world": self.world, "ops": self.ops, "show": list(range(len(self.objs)))}
+        if self.first is not None:
+            req |= {"first": self.first, "second": self.second}
+        return req | self.terms
+
+    def final(self, d, **terms):
+        """the object and every instrument as they are now"""
+        fin = dict(terms)
+        fin["reg"] = [[n, self.known(o)] for n, o in d.named_underliers()]
+        fin["clauses"] = [n for n, _ in d.named_clauses()]
+        fin["spot"] = [[k, [[F(z) for z in r] for r in o.spot.tolist()] if hasattr(o, "spot") else None]
+                       for k, o in enumerate(self.objs)]
+        return fin
+
+
+def ms_same(a, b, flt):
+    """one output of the real object against the model's"""
+    if a is None or b is None:
+        return a is None and b is None
+    if not isinstance(b, dict):
+        return False
+    if a[0] == "err":
+        return b.get("err") == a[1]
+    if a[0] == "names":
+        return b.get("names") == a[1]
+    if a[0] == "inst":
+        return b.get("inst") == a[1]
+    if a[0] != "ok" or "ok" not in b or len(b["ok"]) != len(a[1]):
+        return False
+    if flt:       # log in the payoff: libm vs torch kernels, compared with a tolerance like the op "var_swap"
+        return all(abs(x - y) <= 1e-10 * (1 + abs(x)) for x, y in zip(a[1], dec_flt(b["ok"])))
+    return a[1] == dec_rat(b["ok"])
+
+
+def ms_show(o, flt):
+    if o is None or o[0] != "ok":
+        return o
+    return ("ok", o[1] if flt else enc_rat(o[1]))
+
+
+def ms_compare(ctx, recs):
+    """recs: [(case, MultiRec, final | None)].  Every output and the final state of every scenario against the model"""
+    reqs = [rec.request() for _, rec, _ in recs]
+    try:
+        outs = ctx.driver(reqs)
+    except DriverBroken as e:
+        ctx.ties_broken.append({"kind": "driver", "detail": str(e)[:1500]})
+        return
+    for (case, rec, fin), req, m in zip(recs, reqs, outs):
+        ctx.stats[f"multi_session:contract={rec.contract}"] += 1
+        ctx.stats[f"multi_session:instruments={min(len(rec.objs), 6)}"] += 1
+        for o in rec.ops:
+            ctx.stats[f"multi_session:op={o[0]}"] += 1
+        mo = m.get("outs")
+        small = {"contract": rec.contract, "world": rec.world, "model_ops": rec.ops}
+        if mo is None or len(mo) != len(rec.outs):
+            ctx.disagree("multi_session", case | small, [ms_show(o, rec.flt) for o in rec.outs], m, note="no / wrong number of outputs")
+            continue
+        for k, (a, b) in enumerate(zip(rec.outs, mo)):
+            ctx.stats["multi_session:out=" + ("none" if a is None else a[0])] += 1
+            if not ms_same(a, b, rec.flt):
+                ctx.stats[f"multi_session:DISAGREE at {rec.ops[k][0]}"] += 1
+                ctx.disagree("multi_session", case | small | {"at": k, "model_op": rec.ops[k]}, ms_show(a, rec.flt),
+                             {"ok": dec_flt(b["ok"])} if (rec.flt and isinstance(b, dict) and "ok" in b) else b,
+                             note=f"output {k} of the scenario differs ({rec.ops[k][0]})")
+                break
+        else:
+            if fin is None:
+                continue
+            mf = m["final"]
+            dec = (lambda x: F(float_of_bits(x))) if rec.flt else F
+            got = {"reg": mf["reg"], "clauses": mf["clauses"],
+                   "spot": [[k, None if b is None else [[dec(z) for z in r] for r in b]] for k, b in mf["spot"]]}
+            for key in ("strike", "weights"):
+                if key in fin:
+                    got[key] = dec(mf[key]) if key == "strike" else [dec(w) for w in mf[key]]
+            for key in ("call", "start"):
+                if key in fin:
+                    got[key] = mf[key]
+            if got != fin:
+                ctx.stats["multi_session:DISAGREE final state"] += 1
+                ctx.disagree("multi_session", case | small, {k: str(v) for k, v in fin.items()},
+                             {k: str(v) for k, v in got.items()}, note="final state of the object / the instruments differs")
+
+
 def gen_deriv(g, tier):
     kind = g.choice(KINDS + ["variance_swap"])
     N, T = g.small(), g.small((2, 2, 3, 4, 5, 8))
@@ -296,7 +480,8 @@ def gen_deriv(g, tier):
                 cform=g.choice(CFORMS), share=g.chance(0.8), hist=hist, others=others)
 
 
-def build_deriv(torch, c, pool=None):
+def build_deriv(torch, c, pool=None, rec=None):
+    """rec: a MultiRec that is told the instruments, the registrations of the construction history and the clauses"""
     import pfhedge.instruments as I
     pool = pool if pool is not None else ClausePool(c["cform"], c["share"])
     stock = new_stock(torch, c["paths"], c["dt"])
@@ -323,6 +508,15 @@ def build_deriv(torch, c, pool=None):
     d, reg = make_with_history(c.get("hist", "direct"), make, assets)
     for name, desc in c["adds"]:
         d.add_clause(name, pool.get(desc))
+    if rec is not None:
+        ids = {key: rec.add(a, c["paths"] if key == "S" else c["others"][key]) for key, a in assets.items()}
+        steps = HIST[c.get("hist", "direct")]
+        rec.op(["register", "underlier", ids["O" if any(n == "underlier" for _, n, _ in steps) else "S"]], None)   # the constructor
+        for how, name, key in steps:
+            rec.op([how, name, ids[key]], None)
+        for name, desc in c["adds"]:
+            rec.op(["clause", name, rec.encd(desc)], None)
+        rec.set_terms(c["strike"], c["call"], c["sidx"], c["dt"], attrs=rec.static_attrs(d))
     return d, stock, reg
 
 
@@ -419,9 +613,11 @@ def check(ctx):
     # ------------- derivative level: payoff_fn wiring, clauses, start index, variance swap
     reqs, metas = [], []
     vs_reqs, vs_meta = [], []
+    mrecs = []
     for c in history_corpus() + [gen_deriv(g, ctx.tier) for _ in range(n2)]:
+        rec = MultiRec(c["kind"], flt=(c["kind"] == "variance_swap"))
         try:
-            d, stock, reg = build_deriv(torch, c)
+            d, stock, reg = build_deriv(torch, c, rec=rec)
         except Exception as e:  # noqa
             if c["hist"] != "direct":
                 # the constructor is the one of the plain cases: what raised is a registration / re-assignment of an underlier
@@ -448,6 +644,10 @@ def check(ctx):
             ctx.fail("the underlier registry of a derivative does not list its underliers in the order in which their names were "
                      "registered (an underlier replaced after construction keeps its position; ul() is what the payoff reads)",
                      _small(c) | {"registered": reg_show(reg)}, key="derivative.underliers:registration-order", detail=badreg)
+        # the same construction history, the registry views and the answer for the model's multi-underlier session
+        rec.views(d)
+        rec.query(st, v)
+        mrecs.append((_small(c), rec, None))
         if st != "ok":
             ctx.fail("derivative.payoff() raised on a simulated path", _small(c),
                      key=f"derivative.{c['kind']}.payoff:error", detail=v)
@@ -534,6 +734,7 @@ def check(ctx):
             if not (abs(a - b) <= 1e-10 * (1 + abs(a))):
                 ctx.disagree("var_swap", _small(c), got, mv)
                 break
+    ms_compare(ctx, mrecs)
     # ------------- start index sweep (Float replica is bit-exact; predicate in exact rationals)
     greqs, gmeta = [], []
     import pfhedge.instruments as I
@@ -643,6 +844,11 @@ def check(ctx):
              "another instrument or register further ones (for the model: a new price buffer), user-defined spread / basket contracts on "
              "2-5 assets with assets replaced after construction: the registry keeps the order of first registration (named_underliers, "
              "underliers, ul(i), attribute) and payoff() is the contract on the instruments registered now; "
+             "all of these also through the Lean model of the underlier registry (op multi_session: names in order with object identity, "
+             "ul(i) at every position, get_underlier(name), every payoff() answer / error, final registry / buffers / terms compared exactly), "
+             "plus scripts on one object with 2-5 instruments around (registrations under new / existing / refused names, buffers swapped and "
+             "cells edited through a variable / a name / a position, never-simulated instruments, one-path and mismatching assets, baskets with "
+             "fewer / more weights than assets, clause names against underlier names: fixed corpus and random) judged by the model alone; "
              "non-trivial = T>=2 (functional), any derivative/start-index/re-use/off-grid case; distinct = sha1 of canonical case")
 
 
@@ -881,8 +1087,14 @@ def reuse_expected(cur):
     return [apply_clauses_py(cur["adds"], b, path=p)[1] for b, p in zip(base, cur["paths"])]
 
 
+def _through(d, stock, ref):
+    """the instrument a price edit is addressed to: the variable, the name, the position"""
+    return stock if ref[0] == "id" else (d.get_underlier(ref[1]) if ref[0] == "name" else d.ul(ref[1]))
+
+
 def check_reuse(ctx, torch, g):
     sreqs, smeta = [], []
+    mrecs = []
     for _ in range(160 if ctx.tier == "quick" else 2500):
         c = gen_deriv(g, ctx.tier)
         if c["kind"] == "variance_swap":
@@ -893,8 +1105,11 @@ def check_reuse(ctx, torch, g):
         ctx.traces += 1
         ctx.stats[f"reuse:nops={len(ops)}"] += 1
         pool = ClausePool(c["cform"], c["share"])       # one pool for the whole session: a repeated clause is the same callable
+        # ---- and for the multi-underlier session model (Model/MultiSession.lean, driver op "multi_session"): every instrument a
+        # number, the registrations / re-assignments as they are, the price edits through a reference (variable / name / position)
+        rec = MultiRec(c["kind"], flt=(c["kind"] == "variance_swap"))
         try:
-            d, stock, reg = build_deriv(torch, c, pool)
+            d, stock, reg = build_deriv(torch, c, pool, rec=rec)
         except Exception as e:  # noqa
             if c["hist"] != "direct":
                 ctx.fail("registering a further underlier / re-assigning an underlier of a derivative raised", _small(c),
@@ -919,11 +1134,14 @@ def check_reuse(ctx, torch, g):
             if quiet:
                 op = op[1]
             what = op[0]
+            # how this step's price edits reach the instrument (all three are the current underlier)
+            ref = [["id", rec.known(stock)], ["name", "underlier"], ["pos", 0]][(step + len(ops)) % 3]
             with torch.no_grad():
                 if what == "strike":
                     cur["strike"] = F(op[1])
                     d.strike = float(cur["strike"])
                     mops.append(["strike", enc(op[1])]); iouts.append(None)
+                    rec.op(["strike", enc(op[1])], None)
                 elif what == "call":
                     if op[1] == "toggle":
                         cur["call"] = not cur["call"]
@@ -934,10 +1152,12 @@ def check_reuse(ctx, torch, g):
                         d.call = cur["call"]
                         mops.append(["call", cur["call"]])
                     iouts.append(None)
+                    rec.op(list(mops[-1]), None)
                 elif what == "start":
                     cur["sidx"] = op[1]
                     d.start = op[1] * float(c["dt"])
                     mops.append(["start", op[1]]); iouts.append(None)
+                    rec.op(["start", op[1]], None)
                 elif what in ("spot", "badcell"):
                     for i, j, v in op[1]:
                         try:
@@ -945,11 +1165,12 @@ def check_reuse(ctx, torch, g):
                         except IndexError:
                             pass
                         try:
-                            stock.spot[i, j] = float(F(v))      # in place: the buffer object stays the same
+                            _through(d, stock, ref).spot[i, j] = float(F(v))      # in place: the buffer object stays the same
                             iouts.append(None)
                         except Exception as e:  # noqa
                             iouts.append(("err", canon_error(e)))
                         mops.append(["cell", i, j, enc(v)])
+                        rec.op(["cell", ref, i, j, enc(v)], iouts[-1])
                 elif what in ("reregister", "simulate"):
                     cur["paths"] = [[F(v) for v in p] for p in op[1]]
                     new = torch.tensor([[float(v) for v in p] for p in cur["paths"]], dtype=torch.float64).reshape(
@@ -960,9 +1181,14 @@ def check_reuse(ctx, torch, g):
                             stock.spot.copy_(new)               # ... and the prices are overwritten in place
                         else:
                             stock.register_buffer("spot", new)
+                        # (simulate() re-simulates EVERY registered underlier: the model is told their new prices)
+                        for o in d.underliers():
+                            if o is not stock and rec.known(o) is not None:
+                                rec.op(["swap_buffer", ["id", rec.known(o)], rec.rows([[F(z) for z in r] for r in o.spot.tolist()])], None)
                     else:
-                        stock.register_buffer("spot", new)
+                        _through(d, stock, ref).register_buffer("spot", new)
                     mops.append(["reregister", [[enc(v) for v in p] for p in cur["paths"]]]); iouts.append(None)
+                    rec.op(["swap_buffer", ["id", rec.known(stock)] if what == "simulate" else ref, rec.rows(cur["paths"])], None)
                 elif what == "swap":
                     # the underlier is replaced by ANOTHER instrument (same step size) with its own prices; for the model: the
                     # one price buffer the contract reads is a new one
@@ -970,6 +1196,8 @@ def check_reuse(ctx, torch, g):
                     stock = new_stock(torch, cur["paths"], c["dt"])
                     st, v, _ = call_impl(setattr, d, "underlier", stock) if op[2] == "attr" else \
                         call_impl(d.register_underlier, "underlier", stock)
+                    rec.op(["assign" if op[2] == "attr" else "register", "underlier", rec.new(stock, cur["paths"])],
+                           None if st == "ok" else ("err", v))
                     if st != "ok":
                         ctx.fail("replacing the underlier of a derivative raised", case | {"step": step, "how": op[2]},
                                  key="derivative.underliers:registration-error", detail=v)
@@ -979,6 +1207,8 @@ def check_reuse(ctx, torch, g):
                 elif what == "extra":
                     other = new_stock(torch, dec_rat(op[3]), c["dt"])
                     st, v, _ = call_impl(setattr, d, op[1], other) if op[2] == "attr" else call_impl(d.register_underlier, op[1], other)
+                    rec.op(["assign" if op[2] == "attr" else "register", op[1], rec.new(other, dec_rat(op[3]))],
+                           None if st == "ok" else ("err", v))
                     if st != "ok":
                         ctx.fail("registering a further underlier of a derivative raised", case | {"step": step, "name": op[1], "how": op[2]},
                                  key="derivative.underliers:registration-error", detail=v)
@@ -987,7 +1217,7 @@ def check_reuse(ctx, torch, g):
                         [r for r in reg if r[0] == op[1]][0][1] = other
                     else:
                         reg.append([op[1], other])
-                    # (nothing the model knows of: the contract and its prices are as before)
+                    # (nothing the ONE-buffer model knows of: the contract and its prices are as before)
                 elif what in ("clause", "badclause"):
                     if op[1] != "" and "." not in op[1] and op[1] not in ("strike", "payoff", "maturity"):
                         cur["adds"].append([op[1], op[2]])
@@ -997,8 +1227,11 @@ def check_reuse(ctx, torch, g):
                     except Exception as e:  # noqa
                         iouts.append(("err", canon_error(e)))
                     mops.append(["clause", op[1], encd(op[2])])
+                    rec.op(["clause", op[1], encd(op[2])], iouts[-1])
                 ctx.stats[f"reuse:op={what}"] += 1
                 badreg = registry_wrong(d, reg) if what in ("initial", "swap", "extra") else None
+                if what in ("initial", "swap", "extra"):
+                    rec.views(d)
                 if badreg:
                     ctx.fail("the underlier registry of a derivative does not list its underliers in the order in which their names were "
                              "registered (an underlier replaced after construction keeps its position; ul() is what the payoff reads)",
@@ -1009,6 +1242,7 @@ def check_reuse(ctx, torch, g):
                     continue
                 st, v, mut = call_impl(d.payoff, watch=[("derivative", d)])
             mops.append(["query"])
+            rec.query(st, v)
             if st != "ok":
                 iouts.append(("err", v))
             elif flt:
@@ -1061,6 +1295,8 @@ def check_reuse(ctx, torch, g):
             fin["start"] = d._start_index()
         sreqs.append(sreq | {"ops": mops})
         smeta.append((case, iouts, fin, flt))
+        mfin = {k: v for k, v in fin.items() if k in ("strike", "call", "start")}
+        mrecs.append((case, rec, rec.final(d, **mfin)))
     # ---------------- every payoff() answer (and every refused operation) of the real object against the model's session
     try:
         souts = ctx.driver(sreqs)
@@ -1094,6 +1330,8 @@ def check_reuse(ctx, torch, g):
             if got != fin:
                 ctx.disagree("session", case | {"model_ops": mops}, {k: str(v) for k, v in fin.items()},
                              {k: str(v) for k, v in got.items()}, note="final state of the object differs")
+    # ---------------- the same sessions, registrations and re-assignments included, against the multi-underlier session model
+    ms_compare(ctx, mrecs)
 
 
 def _sess_same(a, b, flt):
@@ -1272,6 +1510,7 @@ def multi_asset_corpus():
 def check_multi_asset(ctx, torch, g):
     Spread, Basket = user_contracts()
     creqs, cmeta = [], []
+    mrecs = []
     for c in multi_asset_corpus() + [gen_multi_asset(g) for _ in range(150 if ctx.tier == "quick" else 2500)]:
         fam = c["family"]
         case = {"contract": fam, "strike": rat_str(c["strike"]), "prices": enc_rat(c["prices"]), "weights": enc_rat(c["weights"]),
@@ -1283,20 +1522,31 @@ def check_multi_asset(ctx, torch, g):
         assets = [new_stock(torch, p, dtv) for p in c["prices"]]
         cur = [[list(r) for r in p] for p in c["prices"]]            # the prices registered now, by position
         weights = list(c["weights"])
+        # (for the model's multi-underlier session: the assets numbered, the constructor's registrations, the clauses)
+        rec = MultiRec(fam, first="first" if fam == "spread_name" else None, second="second" if fam == "spread_name" else None)
+        ids = [rec.add(a, p) for a, p in zip(assets, c["prices"])]
         if fam == "basket":
             d = Basket(assets, [float(w) for w in weights], float(c["strike"]), 1.0)
             reg = [[f"asset{i}", a] for i, a in enumerate(assets)]
+            for i, k in enumerate(ids):
+                rec.op(["register", f"asset{i}", k], None)
         else:
             d = Spread(assets[0], assets[1], float(c["strike"]), 1.0, "position" if fam == "spread_position" else "name")
             reg = [["first", assets[0]], ["second", assets[1]]]
+            rec.op(["assign", "first", ids[0]], None)
+            rec.op(["assign", "second", ids[1]], None)
         pool = ClausePool("function", True)
         for name, desc in c["adds"]:
             d.add_clause(name, pool.get(desc))
+            rec.op(["clause", name, rec.encd(desc)], None)
+        rec.set_terms(c["strike"], dt=dtv, weights=weights if fam == "basket" else (), attrs=rec.static_attrs(d))
         for step, op in enumerate([["initial"]] + c["ops"]):
             here = case | {"step": step, "after": op[:3]}
             if op[0] != "initial":
                 other = new_stock(torch, dec_rat(op[-1]), dtv)
                 st, v, _ = call_impl(setattr, d, op[1], other) if op[2] == "attr" else call_impl(d.register_underlier, op[1], other)
+                rec.op(["assign" if op[2] == "attr" else "register", op[1], rec.new(other, dec_rat(op[-1]))],
+                       None if st == "ok" else ("err", v))
                 if st != "ok":
                     ctx.fail("replacing an asset of a user-defined contract / registering a further asset raised", here,
                              key="derivative.underliers:registration-error", detail=v)
@@ -1306,6 +1556,7 @@ def check_multi_asset(ctx, torch, g):
                     cur.append(dec_rat(op[-1]))
                     weights.append(F(op[3]))
                     d.weights.append(float(F(op[3])))
+                    rec.op(["weight", rec.enc(op[3])], None)
                 else:
                     i = [n for n, _ in reg].index(op[1])
                     reg[i][1] = other
@@ -1318,6 +1569,8 @@ def check_multi_asset(ctx, torch, g):
                          here | {"registered": reg_show(reg)}, key="derivative.underliers:registration-order", detail=badreg)
             with torch.no_grad():
                 st, v, mut = call_impl(d.payoff, watch=[("derivative", d)])
+            rec.views(d)
+            rec.query(st, v)
             if mut:
                 ctx.mutated("derivative.payoff", mut, here)
             n_paths = len(cur[0])
@@ -1339,6 +1592,8 @@ def check_multi_asset(ctx, torch, g):
             fn_ = tensor_to_fracs(d.payoff_fn())
             creqs.append({"op": "clauses", "adds": c["adds"], "base": enc_rat(fn_)})
             cmeta.append((case, got, [n for n, _ in d.named_clauses()]))
+        mfin = {"strike": F(d.strike)} | ({"weights": [F(w) for w in d.weights]} if fam == "basket" else {})
+        mrecs.append((case, rec, rec.final(d, **mfin)))
     try:
         couts = ctx.driver(creqs)
     except DriverBroken as e:
@@ -1347,6 +1602,226 @@ def check_multi_asset(ctx, torch, g):
     for (case, got, names), m in zip(cmeta, couts):
         if m.get("names") != names or dec_rat(m.get("payoff", [])) != got:
             ctx.disagree("clauses_user_contract", case, {"names": names, "payoff": enc_rat(got)}, m)
+    # ---------------- every step of every scenario (registry listing, ul(i), get_underlier, payoff()) against the model's multi-underlier session
+    ms_compare(ctx, mrecs)
+    check_multi_scripts(ctx, torch, g, Spread, Basket)
+
+
+# ---------------------------------------------------------------------------------------------------------------------------
+# SCRIPTS on one derivative object with several instruments around: registrations / assignments under new, existing and refused names,
+# buffers replaced and cells edited through a variable / a name / a position (also ones that do not resolve), instruments that were
+# never simulated, assets with ONE path (broadcast) or another number of paths, baskets with fewer / more weights than assets, clauses
+# that take the name of an underlier and underliers that take the name of a clause, registry queries and payoff() in between.
+# No oracle of its own: every output of the real object is compared with the model's (driver op "multi_session").
+
+MS_KINDS = ["european", "lookback", "american_binary", "european_binary", "forward_start", "spread_position", "spread_name", "basket"]
+MS_NAMES = ["underlier", "fx", "collateral", "first", "second", "asset0", "asset1", "asset2", "a"]
+MS_BAD_NAMES = ["strike", "payoff", "maturity", "ul", "a.b", ""]
+
+
+def ms_script_corpus():
+    """corner cases, part of every run"""
+    A, B, C1, C3 = [["2", "3"], ["1", "4"]], [["1", "1/2"], ["1", "1"]], [["1", "5/2"]], [["1"], ["2"], ["3"]]
+    E = [[], []]
+    out = []
+    for kind in ("spread_position", "spread_name"):
+        # second asset never simulated / simulated later / one path / three paths against two / no columns; names and positions that do not resolve
+        out.append(dict(kind=kind, strike="1/2", insts=[A, None, B, C1, C3, E], init=[0, 1], weights=[], ops=[
+            ["query"], ["views"], ["cell", ["name", "second"], 0, 0, "1"], ["cell", ["pos", 1], 0, 0, "1"], ["swap_buffer", ["name", "second"], B],
+            ["query"], ["assign", "second", 3], ["query"], ["register", "second", 4], ["query"], ["assign", "first", 3], ["query"],
+            ["register", "second", 5], ["query"], ["assign", "second", 2], ["views"], ["query"], ["swap_buffer", ["name", "third"], A],
+            ["swap_buffer", ["pos", 2], A], ["swap_buffer", ["pos", -3], A], ["cell", ["pos", -1], 5, 0, "1"], ["cell", ["pos", -1], -2, -2, "4"],
+            ["query"], ["assign", "strike", 0], ["register", "payoff", 0], ["register", "a.b", 0], ["assign", "", 0], ["register", "ul", 0],
+            ["views"], ["clause", "first", ["cap", "1"]], ["clause", "a", ["affine", "2", "1"]], ["register", "a", 0], ["views"],
+            ["clause", "a", ["floor", "1"]], ["clause", "fx", ["cap", "3"]], ["assign", "fx", 1], ["views"], ["query"]]))
+    # baskets: no weights (a Python float has no clamp), fewer weights than assets, more weights than assets, one-path asset, an asset registered twice
+    out.append(dict(kind="basket", strike="1", insts=[A, B, C1, C3, None], init=[0, 1], weights=[], ops=[
+        ["query"], ["weight", "1"], ["query"], ["weight", "-1/2"], ["query"], ["weight", "2"], ["query"], ["register", "asset2", 2], ["query"],
+        ["views"], ["assign", "asset3", 0], ["query"], ["weight", "1/4"], ["query"], ["register", "asset1", 3], ["query"], ["assign", "asset1", 4],
+        ["query"], ["swap_buffer", ["id", 4], B], ["query"], ["register", "asset0", 2], ["views"], ["query"]]))
+    # built-in products: a further underlier, the underlier replaced by an instrument that was never simulated, by one without columns; a
+    # knock-out clause (reads ul()); a clause under the name of the further underlier
+    for kind in ("european", "lookback", "american_binary", "european_binary", "forward_start"):
+        P = [["1", "2", "1/2"], ["2", "1", "4"]]
+        Q = [["4", "1", "2"], ["1/2", "1/2", "1"]]
+        out.append(dict(kind=kind, strike="1", insts=[P, Q, None, E], init=[0], weights=[], ops=[
+            ["register", "fx", 1], ["views"], ["query"], ["clause", "k", ["knock_out", "4"]], ["query"], ["assign", "underlier", 1], ["views"],
+            ["query"], ["cell", ["name", "underlier"], 0, 1, "4"], ["query"], ["cell", ["id", 0], 0, 0, "8"], ["query"], ["assign", "underlier", 2],
+            ["query"], ["cell", ["pos", 0], 0, 0, "1"], ["swap_buffer", ["pos", 0], P], ["query"], ["register", "underlier", 3], ["query"],
+            ["clause", "fx", ["cap", "1"]], ["register", "k", 0], ["views"], ["assign", "underlier", 0], ["query"], ["ul", 5], ["get", "strike"]]))
+    return out
+
+
+def gen_ms_script(g):
+    kind = g.choice(MS_KINDS)
+    pow2 = kind == "forward_start"
+    N = g.small((1, 2, 2, 3, 4))
+    n_inst = g.choice([2, 3, 3, 4, 5])
+    insts = []
+    for _ in range(n_inst):
+        r = g.r.random()
+        if r < 0.07:
+            insts.append(None)                                            # never simulated
+        else:
+            n = 1 if r < 0.13 else (N + 1 if r < 0.17 else N)             # one path (broadcast) / another number of paths
+            T = g.small((1, 2, 3, 3, 5)) if not g.chance(0.03) else 0
+            insts.append(enc_rat(gen_paths(g, n, T, 3, pow2=pow2)) if T else [[] for _ in range(n)])
+    n_init = 1 if kind in MS_KINDS[:5] else (2 if kind.startswith("spread") else g.choice([1, 2, 2, 3]))
+    init = [g.randint(0, n_inst - 1) for _ in range(n_init)]
+    if insts[init[0]] is None and g.chance(0.7):
+        insts[init[0]] = enc_rat(gen_paths(g, N, 3, 3, pow2=pow2))
+    weights = [rat_str(g.choice(WEIGHTS)) for _ in range(g.choice([0, n_init, n_init, n_init, n_init + 1]))] if kind == "basket" else []
+    strike = g.choice([F(1, 2), F(1), F(2)]) if pow2 else g.choice([F(0), F(1, 2), F(1), g.dy(-1, 3, 2)])
+    names = list(MS_NAMES)
+    used_clause_names = []
+
+    def ref():
+        r = g.r.random()
+        if r < 0.3:
+            return ["id", g.randint(0, n_inst - 1)]
+        if r < 0.65:
+            return ["name", g.choice(names + ["nosuch"])]
+        return ["pos", g.choice([0, 0, 1, -1, -1, 2, -2, 3, -4])]
+
+    def val():
+        return rat_str(F(2) ** g.randint(-2, 2) if pow2 else g.dy(F(1, 4), 4, 3))
+
+    ops = []
+    for _ in range(g.choice([3, 5, 8, 12, 16])):
+        what = g.weighted([("reg", 5), ("swap", 3), ("cell", 3), ("query", 4), ("views", 1), ("strike", 1), ("clause", 2),
+                           ("weight", 2 if kind == "basket" else 0), ("badreg", 1)])
+        if what == "reg":
+            ops.append([g.choice(["register", "assign", "assign"]), g.choice(names[:8] if g.chance(0.9) else names + used_clause_names),
+                        g.randint(0, n_inst - 1)])
+        elif what == "badreg":
+            ops.append([g.choice(["register", "assign"]), g.choice(MS_BAD_NAMES), g.randint(0, n_inst - 1)])
+        elif what == "swap":
+            n = N if g.chance(0.85) else g.choice([1, N + 1])
+            T = g.small((1, 2, 3, 5)) if not g.chance(0.04) else 0
+            ops.append(["swap_buffer", ref(), enc_rat(gen_paths(g, n, T, 3, pow2=pow2)) if T else [[] for _ in range(n)]])
+        elif what == "cell":
+            ops.append(["cell", ref(), g.randint(-N - 1, N), g.choice([-1, -1, 0, 1, g.randint(-4, 4)]), val()])
+        elif what == "strike":
+            ops.append(["strike", rat_str(g.choice([F(1, 2), F(1), F(2)]) if pow2 else g.dy(-1, 3, 2))])
+        elif what == "weight":
+            ops.append(["weight", rat_str(g.choice(WEIGHTS))])
+        elif what == "clause":
+            ck = g.choice(["affine", "cap", "floor"] + (["knock_out"] if kind in MS_KINDS[:5] else []))
+            d = ["affine", rat_str(g.choice([F(1, 2), F(2), F(-1)])), rat_str(g.choice([F(0), F(1, 2)]))] if ck == "affine" else \
+                [ck, rat_str(g.dy(0, 4, 2))]
+            name = g.choice(["a", "b", "fx", "first", "strike", "asset1", "a.b"])
+            used_clause_names.append(name)
+            ops.append(["clause", name, d])
+        else:
+            ops.append([what])
+        if ops[-1][0] in ("register", "assign") and g.chance(0.5):
+            ops.append(["views"])
+        if ops[-1][0] != "query" and g.chance(0.45):
+            ops.append(["query"])
+    ops.append(["views"])
+    ops.append(["query"])
+    return dict(kind=kind, strike=rat_str(strike), insts=insts, init=init, weights=weights, ops=ops)
+
+
+def check_multi_scripts(ctx, torch, g, Spread, Basket):
+    import pfhedge.instruments as I
+    mrecs = []
+    dtv = F(1, 4)
+    for sc in ms_script_corpus() + [gen_ms_script(g) for _ in range(120 if ctx.tier == "quick" else 2000)]:
+        kind = sc["kind"]
+        case = {"script": kind, "strike": sc["strike"], "instruments": sc["insts"], "constructed_on": sc["init"], "weights": sc["weights"],
+                "ops": sc["ops"]}
+        ctx.case(case, nontrivial=True, tag="multi_script_" + kind)
+        ctx.traces += 1
+        ctx.stats[f"script:contract={kind}"] += 1
+        rec = MultiRec(kind, first="first" if kind == "spread_name" else None, second="second" if kind == "spread_name" else None)
+        objs = []
+        for paths in sc["insts"]:
+            if paths is None:
+                objs.append(I.BrownianStock(dt=float(dtv), dtype=torch.float64))
+                rec.add(objs[-1], None)
+            else:
+                objs.append(new_stock(torch, dec_rat(paths), dtv))
+                if paths and not paths[0]:
+                    objs[-1].register_buffer("spot", torch.zeros((len(paths), 0), dtype=torch.float64))
+                rec.add(objs[-1], dec_rat(paths))
+        k = float(F(sc["strike"]))
+        init = sc["init"]
+        if kind == "basket":
+            d = Basket([objs[i] for i in init], [float(F(w)) for w in sc["weights"]], k, 1.0)
+            for n, i in enumerate(init):
+                rec.op(["register", f"asset{n}", i], None)
+        elif kind.startswith("spread"):
+            d = Spread(objs[init[0]], objs[init[1]], k, 1.0, "position" if kind == "spread_position" else "name")
+            rec.op(["assign", "first", init[0]], None)
+            rec.op(["assign", "second", init[1]], None)
+        else:
+            u = objs[init[0]]
+            d = {"european": lambda: I.EuropeanOption(u, call=True, strike=k, maturity=1.0),
+                 "lookback": lambda: I.LookbackOption(u, call=False, strike=k, maturity=1.0),
+                 "american_binary": lambda: I.AmericanBinaryOption(u, call=True, strike=k, maturity=1.0),
+                 "european_binary": lambda: I.EuropeanBinaryOption(u, call=False, strike=k, maturity=1.0),
+                 "forward_start": lambda: I.EuropeanForwardStartOption(u, strike=k, maturity=1.0, start=float(dtv))}[kind]()
+            rec.op(["register", "underlier", init[0]], None)
+        call = kind in ("european", "american_binary", "forward_start")
+        rec.set_terms(F(sc["strike"]), call=call, start=1 if kind == "forward_start" else 0, dt=dtv, weights=[F(w) for w in sc["weights"]],
+                      attrs=rec.static_attrs(d, extra=[o[1] for o in sc["ops"] if o[0] in ("register", "assign", "clause")]))
+        pool = ClausePool("function", True)
+
+        def through(ref):
+            return objs[ref[1]] if ref[0] == "id" else (d.get_underlier(ref[1]) if ref[0] == "name" else d.ul(ref[1]))
+
+        for op in sc["ops"]:
+            what = op[0]
+            ctx.stats[f"script:op={what}"] += 1
+            with torch.no_grad():
+                if what == "views":
+                    rec.views(d)
+                    continue
+                if what == "query":
+                    st, v, mut = call_impl(d.payoff, watch=[("derivative", d)])
+                    if mut:
+                        ctx.mutated("derivative.payoff", mut, case)
+                    rec.query(st, v)
+                    continue
+                try:
+                    mop, out = list(op), None
+                    if what == "strike":
+                        d.strike = float(F(op[1]))
+                        mop = ["strike", rec.enc(op[1])]
+                    elif what == "weight":
+                        d.weights.append(float(F(op[1])))
+                        mop = ["weight", rec.enc(op[1])]
+                    elif what in ("register", "assign"):
+                        if what == "register":
+                            d.register_underlier(op[1], objs[op[2]])
+                        else:
+                            setattr(d, op[1], objs[op[2]])
+                    elif what == "swap_buffer":
+                        mop = ["swap_buffer", op[1], rec.rows(dec_rat(op[2]))]
+                        rows = dec_rat(op[2])
+                        through(op[1]).register_buffer("spot", torch.tensor([[float(z) for z in r] for r in rows], dtype=torch.float64).reshape(
+                            len(rows), len(rows[0]) if rows else 0))
+                    elif what == "cell":
+                        mop = ["cell", op[1], op[2], op[3], rec.enc(op[4])]
+                        through(op[1]).spot[op[2], op[3]] = float(F(op[4]))
+                    elif what == "clause":
+                        mop = ["clause", op[1], rec.encd(op[2])]
+                        d.add_clause(op[1], pool.get(op[2]))
+                    elif what == "ul":
+                        out = rec.ident(d.ul(op[1]))
+                    elif what == "get":
+                        out = rec.ident(d.get_underlier(op[1]))
+                    else:
+                        raise InternalError("script op " + what)
+                except InternalError:
+                    raise
+                except Exception as e:  # noqa
+                    out = ("err", canon_error(e))
+                rec.op(mop, out)
+        fin = {"strike": F(d.strike)} | ({"weights": [F(w) for w in d.weights]} if kind == "basket" else {})
+        mrecs.append((case, rec, rec.final(d, **fin)))
+    ms_compare(ctx, mrecs)
 
 
 def _small(c):
